@@ -76,11 +76,16 @@ def enumerate_paths(body, vx, is_key, start_iv):
     out = []
     count = [0]
 
-    def go(bb, iv, path):
+    from mirlite import bool_transfer, bool_switch_target
+
+    def go(bb, iv, path, known=None):
         count[0] += 1
         if count[0] > 5000:
             raise RuntimeError("path explosion")
         path = path + [bb]
+        # small constants known on this path (flags, enum variants built on it, their payloads): a later
+        # switch on one of them goes one way only - `let form = pick(len); match form {..}` is one decision
+        known = bool_transfer(body, bb, known or {})
         t = body.blocks[bb]["term"]
         k = t["t"]
         if k == "return":
@@ -101,12 +106,12 @@ def enumerate_paths(body, vx, is_key, start_iv):
                         for v, tb in t["targets"]:
                             niv = refine(iv, cond[1], other[1], key_left, bool(v))
                             if niv[0] <= niv[1]:
-                                go(tb, niv, path)
+                                go(tb, niv, path, known)
                         vals = {v for v, _ in t["targets"]}
                         ev = 1 if 0 in vals else 0
                         niv = refine(iv, cond[1], other[1], key_left, bool(ev))
                         if niv[0] <= niv[1] and body.blocks[t["else"]]["term"]["t"] != "unreachable":
-                            go(t["else"], niv, path)
+                            go(t["else"], niv, path, known)
                         handled = True
                         break
             if not handled and cond[0] == "discr":
@@ -120,19 +125,19 @@ def enumerate_paths(body, vx, is_key, start_iv):
                         for v, tb in t["targets"]:
                             niv = (iv[0], min(iv[1], mx)) if v == 0 else (max(iv[0], mx + 1), iv[1])
                             if niv[0] <= niv[1]:
-                                go(tb, niv, path)
+                                go(tb, niv, path, known)
                         vals = {v for v, _ in t["targets"]}
                         if body.blocks[t["else"]]["term"]["t"] != "unreachable":
                             niv = (max(iv[0], mx + 1), iv[1]) if 0 in vals else (iv[0], min(iv[1], mx))
                             if niv[0] <= niv[1]:
-                                go(t["else"], niv, path)
+                                go(t["else"], niv, path, known)
                         handled = True
             if not handled and is_key(cond):
                 vals = []
                 for v, tb in t["targets"]:
                     vals.append(v)
                     if iv[0] <= v <= iv[1]:
-                        go(tb, (v, v), path)
+                        go(tb, (v, v), path, known)
                 # else edge: keep the interval (minus point values at the borders)
                 lo, hi = iv
                 while lo in vals:
@@ -140,17 +145,18 @@ def enumerate_paths(body, vx, is_key, start_iv):
                 while hi in vals:
                     hi -= 1
                 if lo <= hi:
-                    go(t["else"], (lo, hi), path + [("excluding", tuple(vals))])
+                    go(t["else"], (lo, hi), path + [("excluding", tuple(vals))], known)
                 handled = True
             if not handled:
+                only = bool_switch_target(body, bb, known)
                 seen = set()
                 for s in body.succ[bb]:
-                    if s not in seen:
+                    if s not in seen and (only is None or s == only):
                         seen.add(s)
-                        go(s, iv, path)
+                        go(s, iv, path, known)
             return
         for s in body.succ[bb]:
-            go(s, iv, path)
+            go(s, iv, path, known)
     go(0, start_iv, [])
     return out
 
@@ -161,7 +167,14 @@ def writer_leaves(body):
     pname = vx.root_name(1)
 
     def is_key(e):
-        return e[0] == "path" and e[1] == pname and not e[2]
+        if e[0] == "path" and e[1] == pname and not e[2]:
+            return True
+        # `if let Ok(short) = u8::try_from(len)`: where it exists, `short` is `len`
+        e2 = strip_ref(e)
+        if e2[0] == "proj" and tuple(e2[2]) == ("@Ok", "0") and e2[1][0] == "call" and e2[1][2] and \
+                e2[1][1] in ("core::convert::TryFrom::try_from", "core::convert::TryInto::try_into"):
+            return is_key(strip_ref(e2[1][2][0]))
+        return False
     leaves = []
     for iv, path in enumerate_paths(body, vx, is_key, (0, INF)):
         blocks = [x for x in path if isinstance(x, int)]
@@ -196,6 +209,10 @@ def writer_leaves(body):
         n_direct = 0
         for arr in arrays:
             for e in arr:
+                # `let [high, low] = len.to_be_bytes(); vec![0x82, high, low]`: those bytes are the to_be_bytes call
+                # counted above, not further length bytes
+                if any(x[0] == "call" and x[1].endswith(("::to_be_bytes", "::to_le_bytes")) for x in walk(e)):
+                    continue
                 if e[0] == "const" and isinstance(e[1], int) and marker is None and n_direct == 0 and extra == 0 or \
                         (e[0] == "const" and isinstance(e[1], int) and marker is None and n_direct == 0):
                     marker = e[1]
@@ -211,8 +228,9 @@ def reader_leaves(body, crates):
     vx = pr.vx
 
     def is_key(e):
-        # `*d` where d = first(data)@Some.0   (possibly through a cast-free copy)
-        e = strip_ref(e)
+        # `*d` where d = first(data)@Some.0   (possibly through a cast-free copy, `.ok_or(..)?`)
+        from discharge import unq
+        e = strip_ref(unq(e))
         if e[0] == "proj" and e[1][0] == "call" and tuple(e[2]) == ("@Some", "0"):
             if e[1][1].endswith("<impl [T]>::first"):
                 return True
@@ -331,7 +349,8 @@ def first_tested(body, vx, blocks, is_key):
 
 def rest_offset(pr, rest):
     """k if rest == &data[k..] (possibly through a decoder's remainder on &data[j..])."""
-    rest = strip_ref(rest)
+    from discharge import unq
+    rest = strip_ref(unq(rest))
     if rest[0] == "call" and rest[1] in INDEX:
         rng = strip_ref(rest[2][1])
         if rng[0] == "agg" and rng[1].endswith("RangeFrom::RangeFrom") and rng[2][0][0] == "const":
@@ -360,6 +379,23 @@ def rest_offset(pr, rest):
     return None
 
 
+def _nk(x):
+    return tuple((0, 0) if y is None else ((1, y) if isinstance(y, int) else (2, str(y))) for y in x)
+
+
+def writer_forms(wl):
+    """sorted (lo, hi, marker, extra, order) of the non-diverging writer leaves; two tests in a row may cut one form's
+    range in two (`try_from::<u8>` then `!= 0xff`): adjacent ranges with the same form are one range"""
+    w = sorted(((l[0], min(l[1], 65535), l[2], l[3], l[4]) for l in wl if not l[5] and l[0] <= 65535), key=_nk)
+    merged = []
+    for l in w:
+        if merged and merged[-1][2:] == l[2:] and merged[-1][1] + 1 == l[0]:
+            merged[-1] = (merged[-1][0], l[1]) + tuple(l[2:])
+        else:
+            merged.append(tuple(l))
+    return merged
+
+
 def run(ctx, chk):
     crates = [ctx.crate("zvt_builder"), ctx.crate("zvt")]
     bodies = length_bodies(crates)
@@ -380,8 +416,8 @@ def run(ctx, chk):
         except RuntimeError as e:
             chk.fail("C16-b/shape", short, "decision tree not extractable: %s" % e, d["serialize"].sp())
             continue
-        nk = lambda x: tuple((0, 0) if y is None else ((1, y) if isinstance(y, int) else (2, str(y))) for y in x)
-        w_ok = sorted(((l[0], min(l[1], 65535), l[2], l[3], l[4]) for l in wl if not l[5] and l[0] <= 65535), key=nk)
+        nk = _nk
+        w_ok = writer_forms(wl)
         want = sorted(spec, key=nk)
         chk.require(w_ok == want, "C16-b/writer-switch-points", short,
                     "writer forms are %s, specification says %s" % (fmt_w(w_ok), fmt_w(want)), fmt_w(want), d["serialize"].sp())
